@@ -147,11 +147,11 @@ impl Check for C03 {
         let k = 1 + r.usize(3);
         let np = 3 + r.usize(4);
         let shared_pool = g.name_pool(&mut r, np);
-        struct Cl { session: bool, live: bool, prog: Prog, steps: u64 }
+        struct Cl { session: bool, live: bool, prog: Prog, steps: u64, history: Vec<Line> }
         let mut cls: Vec<Cl> = (0..k).map(|i| {
             let pool = if r.chance(1, 2) { shared_pool.clone() } else { let n = 3 + r.usize(3); g.name_pool(&mut r, n) };
             let n = pool.len();
-            Cl { session: i > 0 || r.chance(2, 3), live: false, prog: Prog { pool, kinds: vec![None; n] }, steps: 3 + r.below(8) }
+            Cl { session: i > 0 || r.chance(2, 3), live: false, prog: Prog { pool, kinds: vec![None; n] }, steps: 3 + r.below(8), history: vec![] }
         }).collect();
         let max_chunk = *r.pick(&[1usize, 3, 6]);
         let mut events = Vec::new();
@@ -164,13 +164,21 @@ impl Check for C03 {
             c.steps -= 1;
             if c.session && (!c.live || (faults && r.chance(1, 14))) {
                 c.live = true;
+                c.history.clear();
                 for k in c.prog.kinds.iter_mut() { *k = None; }
                 events.push(Event { actor: who as u8, op: Op::SessionNew { lang: "en".into() }, clock: clock.clone() });
             }
             if !c.session { for k in c.prog.kinds.iter_mut() { *k = None; } }
             let n = if c.session { 1 + r.usize(max_chunk) } else { 3 + r.usize(8) };
             let mut lines = Vec::new();
-            for _ in 0..n { lines.push(Line::Sem(gen_stmt(&mut r, &g, &mut c.prog, faults))); }
+            for _ in 0..n {
+                // now and then the very same use line again (after whatever re-bindings came in between):
+                // a result remembered per line text would be stale
+                let earlier: Vec<Line> = lines.iter().chain(c.history.iter()).filter(|l| matches!(l, Line::Sem(Stmt::Eval(_)))).cloned().collect();
+                if !earlier.is_empty() && r.chance(1, 6) { lines.push(r.pick(&earlier).clone()); continue; }
+                lines.push(Line::Sem(gen_stmt(&mut r, &g, &mut c.prog, faults)));
+            }
+            if c.session { c.history.extend(lines.iter().cloned()); if c.history.len() > 12 { let cut = c.history.len() - 12; c.history.drain(..cut); } }
             if r.chance(1, 10) { lines.insert(r.usize(lines.len() + 1), Line::Raw(String::new())); }
             let crlf = (0..lines.len()).map(|_| r.chance(1, 6)).collect();
             let text = TextSpec { lines, crlf, trailing_nl: r.chance(1, 10) };
